@@ -82,6 +82,46 @@ pub fn handle(op: &str, req: &Value) -> Option<Value> {
             let vb = run(&req["b"]);
             json!({"equal": va == vb, "view_a": va, "view_b": vb})
         },
+        // one local operation from a view built by merging `pre` into an empty state; observes clock and incarnations
+        "gossip_local_op" => {
+            let pre = &req["pre"];
+            let mut s = build_pre(pre);
+            // bring the logical clock to the witness value where possible (sync_time(x) sets max(clock, x) + 1)
+            if let Some(c) = pre.get("S.1").and_then(Value::as_u64) {
+                if c > s.lamport_time() + 1 { s.sync_time(c - 1); }
+            }
+            let clock0 = s.lamport_time();
+            let before: Vec<(String, i64, u64)> = view(&s);
+            let id = format!("n{}", pre.get("arg_id").cloned().unwrap_or(Value::Null));
+            let inc = pre.get("arg_inc").and_then(Value::as_u64).unwrap_or(0);
+            let changed = match req["gop"].as_str().unwrap_or("") {
+                "suspect" => s.suspect(&id, inc),
+                "fail" => s.fail(&id),
+                "refute" => s.refute(&id, inc),
+                "mark_healthy" => s.mark_healthy(&id),
+                "tick" => { s.tick(); true },
+                "sync_time" => { s.sync_time(pre.get("arg_ts").and_then(Value::as_u64).unwrap_or(0)); true },
+                _ => {
+                    let ups: Vec<GossipNodeState> = (0..4).filter_map(|i| {
+                        let idv = pre.get(format!("u{i}.0"))?;
+                        Some(GossipNodeState::with_wall_time(format!("n{idv}"), health(pre.get(format!("u{i}.1.disc")).and_then(Value::as_i64).unwrap_or(3)),
+                            pre.get(format!("u{i}.2")).and_then(Value::as_u64).unwrap_or(0), pre.get(format!("u{i}.4")).and_then(Value::as_u64).unwrap_or(0), 0))
+                    }).collect();
+                    !s.merge(&ups).is_empty()
+                },
+            };
+            let after = view(&s);
+            let mut regress = s.lamport_time() < clock0;
+            for (k, _, i0) in &before {
+                match after.iter().find(|a| &a.0 == k) {
+                    Some(a) if a.2 >= *i0 => {},
+                    _ => regress = true,
+                }
+            }
+            let inc_changed = before.iter().any(|(k, _, i0)| after.iter().find(|a| &a.0 == k).map_or(true, |a| a.2 != *i0));
+            json!({"changed": changed, "before": before, "after": after, "clock_before": clock0, "clock_after": s.lamport_time(),
+                   "regress": regress, "incarnation_changed": inc_changed})
+        },
         _ => return None,
     })
 }
